@@ -18,6 +18,7 @@ ROOT-ORDER-SOURCE    a prescribed root order is used verbatim
 from __future__ import annotations
 
 import ast
+import re
 from typing import Dict, List, Optional, Sequence, Set, Tuple
 
 from ..boolean import peval
@@ -37,7 +38,7 @@ from ..core import (
     unparse,
     walk_no_nested,
 )
-from ..flow import always_exits, guards, loops_around, reaching
+from ..flow import Opaque, _stmt_chain, always_exits, guards, loops_around, reaching
 from ..resolve import enum_members, method_def, resolve_callee
 
 MODEL = "model.reconciliation"
@@ -1095,6 +1096,58 @@ def root_order_source(prog: Program) -> RuleResult:
             res.ok(construct, f"the only root order is `{short(e)}`")
         else:
             res.fail(construct, f"with a prescribed root the root order is `{short(e, 100)}` instead of the prescribed `{cont}[{key}]` itself", mod, a)
+    # without a prescribed root: ALL linear extensions of the precedence graph of ALL families
+    construct = f"{modname}:_spfs/derived-root-orders"
+    others = [a for a in assigns if not any(a is p[0] for p in prescribed)]
+    if not others:
+        raise AnalysisError("_spfs: branch deriving the root orders from the leaves not found")
+
+    def graph_source(scope: ast.AST, expr: ast.AST, at: ast.AST, params: Sequence[str]) -> Tuple[str, ast.AST]:
+        """('graph' | 'param' | 'filtered' | 'other', witness)"""
+        src = expr
+        if isinstance(expr, ast.Name):
+            if expr.id in params and not any(isinstance(st, (ast.Assign, ast.AugAssign)) and any(dotted(t) == expr.id for t in (st.targets if isinstance(st, ast.Assign) else [st.target])) for st in walk_no_nested(scope)):
+                return "param", expr
+            got = reaching(scope, expr.id, at)
+            if got is None or isinstance(got, Opaque):
+                return "other", expr
+            src = got
+        if isinstance(src, ast.Call) and dotted(src.func) == "_make_prec_graph":
+            return "graph", src
+        if isinstance(src, (ast.DictComp, ast.ListComp, ast.SetComp, ast.GeneratorExp)) and any(g.ifs for g in src.generators):
+            return "filtered", src
+        if isinstance(src, ast.Call) and dotted(src.func) in ("dict", "filter"):
+            return "filtered", src
+        return "other", src
+
+    for a in others:
+        val = a.value
+        if isinstance(val, ast.Call) and dotted(val.func) == "toposort_all" and len(val.args) == 1:
+            kind, wit = graph_source(fn, val.args[0], a, [])
+            if kind == "graph":
+                res.ok(construct, f"`{short(val)}` over `{short(wit, 50)}`")
+            elif kind == "filtered":
+                res.fail(construct, f"the root orders are the linear extensions of `{short(wit, 80)}`, a filtered precedence graph: families left out of it are missing from (or fixed in) every root order", mod, a)
+            else:
+                raise AnalysisError(f"_spfs: the graph given to toposort_all (`{short(wit, 60)}`) is not recognised")
+            continue
+        helper = resolve_callee(prog, mod, val.func) if isinstance(val, ast.Call) else None
+        if helper is None or not isinstance(helper[1], FuncNode):
+            raise AnalysisError(f"_spfs: root orders `{short(val, 60)}` are not a call of toposort_all")
+        hmod, hfn = helper
+        hparams = func_params(hfn)
+        calls = [c for c in ast.walk(hfn) if isinstance(c, ast.Call) and dotted(c.func) == "toposort_all" and len(c.args) == 1]
+        if not calls:
+            raise AnalysisError(f"_spfs: `{hfn.name}` does not call toposort_all")
+        verdicts = [graph_source(hfn, c.args[0], c, hparams) for c in calls]
+        rets = [r for r in ast.walk(hfn) if isinstance(r, ast.Return) and r.value is not None]
+        if any(k == "filtered" for k, _w in verdicts):
+            wit = next(w for k, w in verdicts if k == "filtered")
+            res.fail(construct, f"`{hfn.name}` enumerates the linear extensions of `{short(wit, 80)}`, a filtered precedence graph, and places the remaining families itself: root orders that interleave them with the others are never tried", hmod, calls[0])
+        elif all(k in ("param", "graph") for k, _w in verdicts) and len(rets) == 1 and isinstance(rets[0].value, ast.Call) and rets[0].value is calls[0]:
+            res.ok(construct, f"`{hfn.name}` returns toposort_all of the graph it is given")
+        else:
+            raise AnalysisError(f"_spfs: what `{hfn.name}` does with the linear extensions is not recognised")
     return res
 
 
@@ -1872,6 +1925,18 @@ def _tree_typed(fn: ast.AST, expr: ast.AST, depth: int = 0) -> bool:
     return False
 
 
+def _stringish(expr: ast.AST) -> bool:
+    if isinstance(expr, ast.JoinedStr) or (isinstance(expr, ast.Constant) and isinstance(expr.value, str)):
+        return True
+    if isinstance(expr, ast.Attribute) and expr.attr == "name":
+        return True
+    if isinstance(expr, ast.Call) and dotted(expr.func) in ("str", "repr", "format"):
+        return True
+    if isinstance(expr, ast.BinOp) and isinstance(expr.op, (ast.Add, ast.Mod)):
+        return _stringish(expr.left) or _stringish(expr.right)
+    return False
+
+
 TREE_ITER_EXEMPT = {
     # (module, function): reason - confirmed by reading
     ("model.tree_mapping", "get_species_mapping"): "extracts the LEAF mapping (object leaves onto extant species) from leaf names: "
@@ -1900,6 +1965,13 @@ def tree_iter_explicit(prog: Program) -> RuleResult:
                     it = node.iter
                 elif isinstance(node, ast.Call) and dotted(node.func) in ("len", "list", "set", "tuple", "sorted", "iter", "enumerate") and len(node.args) >= 1:
                     it = node.args[0]
+                if isinstance(node, ast.Compare) and len(node.ops) == 1 and isinstance(node.ops[0], (ast.In, ast.NotIn)) and _tree_typed(fn, node.comparators[0]):
+                    # ete3's __contains__: for a node, membership among the STRICT descendants; for a string, the
+                    # names of all nodes (root included) - only the first form loses the root
+                    n += 1
+                    if not _stringish(node.left):
+                        bad.append((qual, node, node))
+                    continue
                 if it is None:
                     continue
                 n += 1
@@ -1910,6 +1982,9 @@ def tree_iter_explicit(prog: Program) -> RuleResult:
                     bad.append((qual, node if hasattr(node, "lineno") else it, it))
         if bad:
             for i, (qual, node, it) in enumerate(bad):
+                if isinstance(it, ast.Compare):
+                    res.fail(f"{key}:{qual}/direct-tree-iteration#{i}", f"`{short(it)}` asks the tree itself for membership: ete3 answers for the strict descendants of the node only (the root is 'not in' its own tree)", mod, node)
+                    continue
                 res.fail(f"{key}:{qual}/direct-tree-iteration#{i}", f"`{short(it)}` is iterated / counted directly: only its leaves are seen", mod, node)
         else:
             res.ok(f"{key}:<module>/tree-iteration", "every walk names its traversal")
@@ -2231,8 +2306,8 @@ def update_all_candidates(prog: Program) -> RuleResult:
         res.fail(construct, f"the candidates are replaced before they are examined (`{short(rebinds[0], 80)}`)", mod, rebinds[0])
     elif len(loops) != 1:
         res.fail(construct, f"expected one loop over `{var}` itself, found {len(loops)}", mod, fn)
-    elif any(isinstance(n, (ast.Break,)) for n in ast.walk(loops[0])):
-        res.fail(construct, "the loop over the candidates can stop early", mod, loops[0])
+    elif any(isinstance(n, (ast.Break, ast.Return)) for n in ast.walk(loops[0])):
+        res.fail(construct, "the loop over the candidates can stop early (`break` / `return` inside it): the candidates that follow in the same batch are never examined", mod, loops[0])
     else:
         res.ok(construct, f"one loop over `*{var}`, never rebound")
     return res
@@ -2686,7 +2761,271 @@ def combinator_total(prog: Program) -> RuleResult:
     return res
 
 
+# ---------------------------------------------------------------------------
+# GEOM-NO-ORDER, KIND-ENUM-BASE, GRAPH-AS-GIVEN, EVAL-NO-SHORTCUT
+
+CORNERS = {"top_left", "top_right", "bottom_left", "bottom_right", "center", "top", "left", "right", "bottom", "overall_size"}
+
+
+def _geometric_whole(expr: ast.AST) -> bool:
+    """The expression denotes a whole point / size / rectangle (not one of its coordinates)."""
+    if isinstance(expr, ast.Call) and isinstance(expr.func, ast.Attribute) and expr.func.attr in CORNERS:
+        return True
+    if isinstance(expr, ast.Call) and dotted(expr.func) in ("Position", "Size", "Rect"):
+        return True
+    if isinstance(expr, ast.Subscript) and isinstance(expr.slice, ast.Constant) and expr.slice.value in ("size", "rect", "trunk", "left_pos", "right_pos"):
+        return True
+    if isinstance(expr, ast.Attribute) and expr.attr in ("rect", "trunk", "size"):
+        return True
+    return False
+
+
+def geom_no_order(prog: Program) -> RuleResult:
+    res = RuleResult(
+        "GEOM-NO-ORDER",
+        "points, sizes and rectangles are never ordered as wholes: every operand of `min` / `max` / `sorted` / `<` in "
+        "the layout code is a coordinate (`.x .y .w .h`) or a scalar - `Position`, `Size` and `Rect` are named tuples, "
+        "so `max(size_a, size_b)` compares widths first and heights only on ties (and does it differently in the two "
+        "orientations)",
+    )
+    for modname in ("render.layout", "render.tikz"):
+        mod = prog.module(modname)
+        for qual, fn in prog.defs(modname).items():
+            if not isinstance(fn, FuncNode):
+                continue
+            bad = None
+            n = 0
+            for node in walk_no_nested(fn):
+                operands: List[ast.AST] = []
+                if isinstance(node, ast.Call) and dotted(node.func) in ("min", "max", "sorted"):
+                    for a in node.args:
+                        if isinstance(a, (ast.GeneratorExp, ast.ListComp)):
+                            operands.append(a.elt)
+                        else:
+                            operands.append(a)
+                elif isinstance(node, ast.Compare) and any(isinstance(op, (ast.Lt, ast.LtE, ast.Gt, ast.GtE)) for op in node.ops):
+                    operands = [node.left] + list(node.comparators)
+                if not operands:
+                    continue
+                n += 1
+                for o in operands:
+                    if _geometric_whole(o):
+                        bad = (node, o)
+            if n == 0:
+                continue
+            construct = f"{modname}:{qual}/scalar-comparisons"
+            if bad:
+                res.fail(construct, f"`{short(bad[0], 80)}` orders `{short(bad[1], 40)}` as a whole named tuple (first component first)", mod, bad[0])
+            else:
+                res.ok(construct, f"{n} comparison(s), all on coordinates")
+    res.floor(3)
+    return res
+
+
+def kind_enum_base(prog: Program) -> RuleResult:
+    res = RuleResult(
+        "KIND-ENUM-BASE",
+        "NodeEvent and EdgeEvent members are told apart by `==` across the two enumerations (a branch kind is either a "
+        "node event or a full loss): both derive from plain `Enum`, whose members are equal only to themselves - with "
+        "`IntEnum` / a value mixin, `EdgeEvent.FULL_LOSS == NodeEvent.LEAF` whenever their numbers coincide",
+    )
+    mod = prog.module(MODEL)
+    for cname in ("NodeEvent", "EdgeEvent"):
+        cls = prog.cls(MODEL, cname)
+        bases = [dotted(b) or short(b) for b in cls.bases]
+        construct = f"{MODEL}:{cname}/identity-equality"
+        if bases and all(b.split(".")[-1] == "Enum" for b in bases):
+            res.ok(construct, "plain Enum")
+        else:
+            res.fail(construct, f"{cname} derives from {bases}: its members compare by value, so kinds of the two enumerations with the same number are confused", mod, cls)
+    return res
+
+
+def graph_as_given(prog: Program) -> RuleResult:
+    res = RuleResult(
+        "GRAPH-AS-GIVEN",
+        "the ordering routines work on the graph they are given: the graph parameter is never rebound (to a reduced, "
+        "filtered or copied-and-edited graph) and never passed through a helper that returns another graph - dropping "
+        "'implied' edges can break every cycle of a cyclic graph",
+    )
+    mod = prog.module(TOPO)
+    for qual in ("toposort", "toposort_all", "_toposort_all_bt"):
+        fn = prog.func(TOPO, qual)
+        gparams = [a.arg for a in fn.args.args if a.annotation is not None and "Mapping" in unparse(a.annotation)]
+        construct = f"{TOPO}:{qual}/graph-as-given"
+        if not gparams:
+            raise AnalysisError(f"{qual}: graph parameter not found")
+        g = gparams[0]
+        rebinds = [st for st in walk_no_nested(fn) if isinstance(st, (ast.Assign, ast.AugAssign, ast.AnnAssign)) and any(isinstance(t, ast.Name) and t.id == g for t in (st.targets if isinstance(st, ast.Assign) else [st.target]))]
+        derived = [st for st in walk_no_nested(fn) if isinstance(st, ast.Assign) and isinstance(st.value, ast.Call) and any(dotted(a) == g for a in st.value.args) and not (dotted(st.value.func) in ("set", "deque", "len", "list", "dict", "sorted")) and resolve_callee(prog, mod, st.value.func) is not None and not (dotted(st.value.func) or "").startswith("_toposort")]
+        if rebinds:
+            res.fail(construct, f"`{short(rebinds[0], 80)}` replaces the graph that was given", mod, rebinds[0])
+        elif derived:
+            res.fail(construct, f"`{short(derived[0], 80)}` derives another graph from the one that was given and works on that", mod, derived[0])
+        else:
+            res.ok(construct, f"`{g}` is used as given")
+    return res
+
+
+def eval_no_shortcut(prog: Program) -> RuleResult:
+    res = RuleResult(
+        "EVAL-NO-SHORTCUT",
+        "the cost evaluator answers by event kind only: in `_cost_rec` and the two labelling-cost methods every "
+        "conditional `return` is dominated by a test of the node's event (or of the ordered flag); a return under any "
+        "other condition (`the family is confined to one genome, so ...`) is a shortcut that skips the documented "
+        "recount for the subtree below",
+    )
+    mod = prog.module(MODEL)
+    n = 0
+    for cname, meths in (("ReconciliationOutput", ("_cost_rec",)), ("SuperReconciliationOutput", ("_ordered_labeling_cost", "_unordered_labeling_cost", "labeling_cost"))):
+        cls = prog.cls(MODEL, cname)
+        for mname in meths:
+            fn = method_def(cls, mname)
+            if fn is None:
+                continue
+            n += 1
+            construct = f"{MODEL}:{cname}.{mname}/returns-by-kind"
+            events = {t.id for st in walk_no_nested(fn) if isinstance(st, ast.Assign) and isinstance(st.value, ast.Call) and isinstance(st.value.func, ast.Attribute) and st.value.func.attr == "node_event" for t in st.targets if isinstance(t, ast.Name)}
+            bad = None
+            for ret in walk_no_nested(fn):
+                if not isinstance(ret, ast.Return):
+                    continue
+                gs = [(owner.test, True) for _b, _i, _f, owner in _stmt_chain(fn, ret) if isinstance(owner, ast.If)]
+                if not gs:
+                    continue
+                if isinstance(ret.value, ast.Name) or (isinstance(ret.value, ast.Subscript) and isinstance(ret.value.value, ast.Name) and not isinstance(ret.value.slice, ast.Attribute)):
+                    continue  # a memoised / previously computed answer
+
+                def kindish(t: ast.AST) -> bool:
+                    names = {x.id for x in ast.walk(t) if isinstance(x, ast.Name)}
+                    if names & events:
+                        return True
+                    return any(isinstance(x, ast.Attribute) and x.attr in ("ordered", "children") for x in ast.walk(t)) or any(isinstance(x, ast.Call) and isinstance(x.func, ast.Attribute) and x.func.attr in ("node_event", "is_leaf") for x in ast.walk(t))
+
+                if not any(kindish(t) for t, _p in gs):
+                    bad = (ret, gs[0][0])
+                    break
+            if bad:
+                res.fail(construct, f"`{short(bad[0], 70)}` is returned when `{short(bad[1], 70)}`, a condition that is not the event of the node: the subtree below is not recounted", mod, bad[0])
+            else:
+                res.ok(construct, "every conditional return is selected by the node's event")
+    if n < 3:
+        raise AnalysisError("EVAL-NO-SHORTCUT: evaluator methods not found")
+    return res
+
+
+# ---------------------------------------------------------------------------
+# TAG-TEST-CONSISTENT
+
+
+def tag_test_consistent(prog: Program) -> RuleResult:
+    res = RuleResult(
+        "TAG-TEST-CONSISTENT",
+        "Entry.update decides in one way only whether a candidate carries a tag: the conjunct on the candidate's "
+        "info is the same expression in the tie branch and in the improvement branch (`info` and `info is not None` "
+        "are both defensible, but mixing them keeps a falsy tag when its candidate ties and drops it when the same "
+        "candidate comes first, so the retained tags depend on the order of the offers)",
+    )
+    mod = prog.module(DP)
+    cls = prog.cls(DP, "Entry")
+    fn = method_def(cls, "update")
+    if fn is None:
+        raise AnalysisError("Entry.update not found")
+    info_names = {
+        t.id
+        for st in ast.walk(fn)
+        if isinstance(st, ast.Assign) and isinstance(st.value, ast.Attribute) and st.value.attr == "info"
+        for t in st.targets
+        if isinstance(t, ast.Name)
+    }
+    tests: List[Tuple[ast.AST, ast.AST]] = []
+    for node in ast.walk(fn):
+        if not isinstance(node, (ast.If, ast.IfExp)):
+            continue
+        parts = node.test.values if isinstance(node.test, ast.BoolOp) and isinstance(node.test.op, ast.And) else [node.test]
+        for part in parts:
+            names = {x.id for x in ast.walk(part) if isinstance(x, ast.Name)}
+            attr_info = any(isinstance(x, ast.Attribute) and x.attr == "info" and isinstance(x.ctx, ast.Load) for x in ast.walk(part))
+            if (names and names <= info_names) or (attr_info and not names - {"candidate", "cand"} - info_names):
+                tests.append((part, node))
+    construct = f"{DP}:Entry.update/one-tag-predicate"
+    if len(tests) < 2:
+        raise AnalysisError(f"Entry.update: {len(tests)} test(s) on the candidate's tag found, expected one per branch")
+    forms = {}
+    for part, node in tests:
+        forms.setdefault(re.sub(r"\b(" + "|".join(sorted(info_names) + ["candidate.info"]) + r")\b", "<tag>", unparse(part)) if info_names else unparse(part), []).append(node)
+    if len(forms) == 1:
+        res.ok(construct, f"{len(tests)} branches test `{next(iter(forms))}`")
+    else:
+        (fa, na), (fb, nb) = list(forms.items())[:2]
+        res.fail(construct, f"the branches disagree on what a tagged candidate is: `{fa}` (line {na[0].lineno}) against `{fb}` (line {nb[0].lineno}); a tag such as 0 or () is kept on one path and dropped on the other", mod, nb[0])
+    return res
+
+
+# ---------------------------------------------------------------------------
+# ROOT-CONTENT
+
+
+def root_content(prog: Program) -> RuleResult:
+    res = RuleResult(
+        "ROOT-CONTENT",
+        "the drivers decode from the COMPLETE root synteny only: the argument that the decoder's recursion fills with "
+        "`info.<side>.synteny` is, in the driver's call, `subseq_complete(<the root order of the enclosing loop>)` "
+        "(ordered) / the LCA assignment with the LCA set of the root object (unordered) - a cheaper table entry for a "
+        "truncated root content is not a solution of the problem that was posed",
+    )
+    for modname, driver, decoder in (
+        ("compute.super_reconciliation", "_spfs", "_decode_spfs_table"),
+        ("compute.unordered_super_reconciliation", "_uspfs", "_decode_uspfs_table"),
+    ):
+        mod = prog.module(modname)
+        dec = prog.func(modname, decoder)
+        drv = prog.func(modname, driver)
+        # the content parameter: position that the recursion fills with info.<side>.synteny
+        positions = set()
+        for call in walk_no_nested(dec):
+            if isinstance(call, ast.Call) and dotted(call.func) == decoder:
+                for i, a in enumerate(call.args):
+                    if isinstance(a, ast.Attribute) and a.attr == "synteny" and isinstance(a.value, ast.Attribute) and a.value.attr in ("left", "right"):
+                        positions.add(i)
+        if len(positions) != 1:
+            raise AnalysisError(f"{decoder}: content parameter not identified ({sorted(positions)})")
+        pos = positions.pop()
+        calls = [c for c in ast.walk(drv) if isinstance(c, ast.Call) and dotted(c.func) == decoder]
+        if not calls:
+            raise AnalysisError(f"{driver}: call of {decoder} not found")
+        for k, call in enumerate(calls):
+            construct = f"{modname}:{driver}/root-content" + (f"#{k}" if k else "")
+            if len(call.args) <= pos:
+                raise AnalysisError(f"{driver}: call of {decoder} with keyword arguments not understood")
+            arg = call.args[pos]
+            if isinstance(arg, ast.Name):
+                got = reaching(drv, arg.id, call)
+                if got is not None and not isinstance(got, Opaque):
+                    arg = got
+            loop_vars = {dotted(l.target) for l in loops_around(drv, call) if isinstance(l, ast.For)}
+            if modname.endswith("unordered_super_reconciliation"):
+                nxt = call.args[pos + 1] if len(call.args) > pos + 1 else None
+                root = unparse(call.args[0])
+                ok = dotted(arg) is not None and dotted(arg).endswith("SyntenyAssignment.LCA") and isinstance(nxt, ast.Subscript) and unparse(nxt.slice) == root and "lca" in unparse(nxt.value)
+                want = f"SyntenyAssignment.LCA with the LCA set of `{root}`"
+            else:
+                ok = isinstance(arg, ast.Call) and dotted(arg.func) == "subseq_complete" and len(arg.args) == 1 and isinstance(arg.args[0], ast.Name) and arg.args[0].id in loop_vars and any(dotted(a) == arg.args[0].id for i, a in enumerate(call.args) if i != pos)
+                want = "subseq_complete(<root order of the enclosing loop>)"
+            if ok:
+                res.ok(construct, f"decodes from `{short(arg, 50)}`")
+            else:
+                res.fail(construct, f"the driver decodes from the root content `{short(arg, 60)}` instead of {want}: entries of the table for a partial root synteny are cheaper and are not solutions", mod, call)
+    return res
+
+
 RULES = {
+    "ROOT-CONTENT": root_content,
+    "TAG-TEST-CONSISTENT": tag_test_consistent,
+    "GEOM-NO-ORDER": geom_no_order,
+    "KIND-ENUM-BASE": kind_enum_base,
+    "GRAPH-AS-GIVEN": graph_as_given,
+    "EVAL-NO-SHORTCUT": eval_no_shortcut,
     "COMBINATOR-TOTAL": combinator_total,
     "TRIPLES-SOURCE": triples_source,
     "CHAINED-ASSIGN-ORDER": chained_assign_order,
